@@ -60,6 +60,13 @@ def scratch_copy() -> str:
         src = os.path.join(REPO, part)
         if os.path.isdir(src):
             shutil.copytree(src, os.path.join(d, part), ignore=shutil.ignore_patterns('__pycache__', 'tests'))
+    # the Metamath prelude is read from the benchmark databases (C16); the large raw proof archive is not needed
+    bm = os.path.join(REPO, 'generation', 'mm-benchmarks')
+    if os.path.isdir(bm):
+        os.makedirs(os.path.join(d, 'generation', 'mm-benchmarks'), exist_ok=True)
+        for fn in os.listdir(bm):
+            if fn.endswith('.mm'):
+                shutil.copy(os.path.join(bm, fn), os.path.join(d, 'generation', 'mm-benchmarks', fn))
     return d
 
 
